@@ -337,6 +337,16 @@ class Arr:
                 _srt((tuple(vkey(i) for i in w["idx"]), tuple(w["guards"]), tuple(w["loops"]), vkey(w["val"])) for w in self.writes))
 
 
+class PushLog:
+    """Stand-in for an empty Vec while a `for` body is re-executed for one symbolic index: records (guards, pushed value)."""
+
+    def __init__(self):
+        self.items = []
+
+    def key(self):
+        return ("pushlog", tuple((g, vkey(v)) for g, v in self.items))
+
+
 class EarlyRet:
     """An alternative of a `?`-expression that leaves the function with `value` (only meaningful as a branch of an Alt bound by `let`)."""
 
@@ -358,7 +368,7 @@ class Clo:
 def vkey(v):
     if isinstance(v, Poly):
         return v.key()
-    if isinstance(v, (Rec, Tup, Sym, Alt, Clo, Seq, Coll, Arr, EarlyRet)):
+    if isinstance(v, (Rec, Tup, Sym, Alt, Clo, Seq, Coll, Arr, EarlyRet, PushLog)):
         return v.key()
     if isinstance(v, (tuple, list)):
         return tuple(vkey(x) for x in v)
@@ -600,6 +610,8 @@ class Ev:
                 return Sym(*v.tag[1][1:])          # double negation
             if isinstance(v, Sym) and v.tag[:1] == ("bool",):
                 return Sym("bool", "false" if v.tag[1] == "true" else "true")
+            if isinstance(v, Alt) and all(isinstance(x, Sym) and x.tag[:1] == ("bool",) for _, x in v.alts):
+                return Alt([(g, Sym("bool", "false" if x.tag[1] == "true" else "true")) for g, x in v.alts])   # !matches!(..)
             return Sym("not", vkey(v))
         raise Unsupported("unary " + e["op"])
 
@@ -847,7 +859,7 @@ class Ev:
                 env2 = fork_env(env)
                 self.bind_pat_loose(c["pat"], v, env2)
             else:
-                g = ("if", vkey(self.eval(c, env, depth)))
+                g = guard_of(self.eval(c, env, depth))
             d = self.decided(g)
             out = []
             if d is not False:
@@ -859,7 +871,7 @@ class Ev:
                 finally:
                     self.path.pop()
             if d is not True:
-                ng = ("not", g)
+                ng = neg_guard(g)
                 self.path.append(ng)
                 try:
                     if "e" in x:
@@ -890,6 +902,8 @@ class Ev:
                     except Unsupported:
                         pass
                 g = ("arm", pat_key(a["pat"]), vkey(scrut))
+                if len(x["arms"]) == 2 and a is x["arms"][1] and catch_all(a) and r is None:
+                    g = neg_guard(("arm", pat_key(x["arms"][0]["pat"]), vkey(scrut)))
                 self.path.append(g)
                 try:
                     out += [((g,) + g2, e2) for g2, e2 in self.fork_exec(a["body"], env2, depth)]
@@ -938,7 +952,7 @@ class Ev:
         """True / False if the condition g was already decided on the current path, else None."""
         if g in self.path:
             return True
-        if ("not", g) in self.path:
+        if neg_guard(g) in self.path:
             return False
         if isinstance(g, tuple) and len(g) == 2 and g[0] == "if" and g[1] in (("sym", "bool", "true"), ("sym", "bool", "false")):
             return g[1][2] == "true"
@@ -970,12 +984,41 @@ class Ev:
                     raise Unsupported("for loop over a value that is not a modelled sequence at line %s" % x.get("ln"))
                 it = Seq(it, el if callable(el) else (lambda idx, el=el: el))
             name = "i%d" % len(self.loops)
+            # `let mut v = Vec::new(); for x in seq { .. v.push(f(x)) .. }` is `seq.map(f).collect()`: element idx is what one execution of the body pushes
+            push_ids = []
+            for e_ in hir.walk(x["body"]):
+                if e_.get("k") == "mcall" and e_["m"] == "push":
+                    t_ = strip_refs(e_["recv"])
+                    if t_.get("k") == "path" and t_.get("res") == "local" and t_["id"] not in push_ids:
+                        cur = env.get(t_["id"])
+                        if (isinstance(cur, Tup) and not cur.items) or (isinstance(cur, Sym) and cur.tag[:2] == ("call", "std::vec::Vec::<T>::with_capacity")):
+                            push_ids.append(t_["id"])
+            env0 = fork_env(env) if push_ids else None
             self.bind(x["pat"], it.fn(Poly.atom(name)), env)
             self.loops.append((name, vkey(it.src)))
             try:
                 self.exec_stmt(x["body"], env, depth)
             finally:
                 self.loops.pop()
+            for rid in push_ids:
+                def pushed(idx, rid=rid, it=it, env0=env0, x=x, depth=depth, lvl=len(self.loops)):
+                    env3 = fork_env(env0)
+                    self.bind(x["pat"], it.fn(idx), env3)
+                    env3[rid] = PushLog()
+                    sg, sl = self.guards, self.loops
+                    self.guards, self.loops = [], list(sl[:lvl]) + [("p", vkey(it.src))]
+                    try:
+                        self.exec_stmt(x["body"], env3, depth)
+                    finally:
+                        self.guards, self.loops = sg, sl
+                    log = env3[rid].items if isinstance(env3[rid], PushLog) else None
+                    if log and len(log) == 1 and not log[0][0]:
+                        return log[0][1]
+                    if log and len(log) == 2 and len(log[0][0]) == 1 and len(log[1][0]) == 1 and log[1][0][0] == neg_guard(log[0][0][0]):
+                        return Alt([(log[0][0][0], log[0][1]), (log[1][0][0], log[1][1])])
+                    raise Unsupported("a vector filled by push inside a loop, not exactly one push per iteration, at line %s" % x.get("ln"))
+                pushed(Poly.atom("i"))          # fail closed now if the body is not a one-push-per-iteration form
+                env[rid] = Coll(Seq(it.src, pushed))
             return
         if k == "if":
             c = x["c"]
@@ -1038,6 +1081,9 @@ class Ev:
             raise Unsupported("loop form not modelled at line %s" % x.get("ln"))
         if k == "mcall" and x["m"] in MUTATORS and strip_refs(x["recv"]).get("k") == "path" and strip_refs(x["recv"]).get("res") == "local":
             rid = strip_refs(x["recv"])["id"]
+            if x["m"] == "push" and isinstance(env.get(rid), PushLog):
+                env[rid].items.append((tuple(self.guards), self.eval(x["args"][0], env, depth)))
+                return
             env[rid] = Sym("mut", x["m"], vkey(env.get(rid)), tuple(vkey(self.eval(a, env, depth)) for a in x["args"]))
             return
         if k == "ret":
@@ -1122,7 +1168,7 @@ class Ev:
             env2 = dict(env)
             self.bind_pat_loose(e["c"]["pat"], v, env2)
         else:
-            g = ("if", vkey(self.eval(e["c"], env, depth)))
+            g = guard_of(self.eval(e["c"], env, depth))
             env2 = dict(env)
         d = self.decided(g)
         if d is True:
@@ -1134,12 +1180,14 @@ class Ev:
             t = self.eval(e["t"], env2, depth)
         finally:
             self.path.pop()
-        self.path.append(("not", g))
+        self.path.append(neg_guard(g))
         try:
             f = self.eval(e["e"], dict(env), depth) if "e" in e else Sym("unit")
         finally:
             self.path.pop()
-        return Alt([(g, t), (("not", g), f)])
+        if g[0] == "not":
+            return Alt([(neg_guard(g), f), (g, t)])       # canonical order: the positive test first
+        return Alt([(g, t), (neg_guard(g), f)])
 
     def match_pat(self, pat, val, env):
         """Structural pattern match of a symbolic value: True / False / None (cannot decide)."""
@@ -1204,9 +1252,11 @@ class Ev:
             if r is None or (r is True and "guard" in a):
                 break
         alts = []
-        for a in e["arms"]:
+        for n_, a in enumerate(e["arms"]):
             env2 = dict(env)
             g = ("arm", pat_key(a["pat"]), vkey(scrut))
+            if n_ == 1 and len(e["arms"]) == 2 and catch_all(a):
+                g = neg_guard(alts[0][0])
             try:
                 self.bind_pat_loose(a["pat"], scrut, env2)
             except Unsupported:
@@ -1574,6 +1624,24 @@ class Ev:
             # opaque: an unmodelled method of an opaque value stays an opaque value (it can only fail to match an expected form)
             return Sym("m", m, vkey(recv), tuple(vkey(a) for a in args))
         raise Unsupported("method %s (%s) on %s not modelled" % (m, d, vfmt(recv)[:80]))
+
+
+def neg_guard(g):
+    return g[1] if isinstance(g, tuple) and len(g) == 2 and g[0] == "not" else ("not", g)
+
+
+def guard_of(cv):
+    """Guard for a condition value: a two-way alternative of boolean constants (what `matches!(x, P)` expands to) is the test of its first guard."""
+    if isinstance(cv, Alt) and len(cv.alts) == 2:
+        (g1, b1), (g2, b2) = cv.alts
+        if g2 == neg_guard(g1) and all(isinstance(b, Sym) and b.tag[:1] == ("bool",) for b in (b1, b2)) and b1.tag[1] != b2.tag[1]:
+            return g1 if b1.tag[1] == "true" else neg_guard(g1)
+    return ("if", vkey(cv))
+
+
+def catch_all(arm):
+    p = arm["pat"]
+    return "guard" not in arm and (p.get("k") == "wild" or (p.get("k") == "bind" and "sub" not in p))
 
 
 def num(v):
